@@ -370,6 +370,31 @@ fn run(plan: &Plan, ctx: &mut Ctx) -> R {
             ctx.check("C11", "cached-hash-equals-recomputed", c == r, || format!("{name} h{x}: cached_semantic_hash = {c} but semantic_hash recomputes {r}"))?;
         }
     }
+    // hash-identified builders identify *nodes* by hash: two distinct stored nodes that denote the same
+    // (or complementary) function mean that an equal function was judged different when it was inserted
+    {
+        let mut seen: BTreeMap<TT, usize> = BTreeMap::new();
+        for nd in td_sem.verif_nodes() {
+            let a = nd as *const _ as usize;
+            let t = wb::walk_raw(BddPtr::Reg(nd), &mut BTreeMap::new());
+            if let Some(prev) = seen.insert(t.min(!t), a) {
+                ctx.check("C11", "semantic-topdown-builder-redundant-node", false, || {
+                    format!("SemanticDecisionNNFBuilder stores two nodes ({prev:#x}, {a:#x}) for the function {} (or its complement)", tt::show(t))
+                })?;
+            }
+        }
+        ctx.evals += 1;
+        let mut seen: BTreeMap<TT, (usize, u8)> = BTreeMap::new();
+        for nd in sem.node_iter() {
+            let t = ws::walk(nd, &mut BTreeMap::new());
+            if let Some(prev) = seen.insert(t.min(!t), ws::pkey(nd)) {
+                ctx.check("C11", "semantic-sdd-builder-redundant-node", false, || {
+                    format!("SemanticSddBuilder stores two nodes ({:x?}, {:x?}) for the function {} (or its complement)", prev, ws::pkey(nd), tt::show(t))
+                })?;
+            }
+        }
+        ctx.evals += 1;
+    }
     ctx.count("operand-too-big-skipped", usize_cap_hit);
     ctx.nontrivial = nres >= 3;
     ctx.states.extend(model.iter().chain(t_model.iter()).map(|t| mix(tt::lo(*t), tt::hi(*t))));
